@@ -140,6 +140,11 @@ func (root *Root) resolve(
 	t Type,
 	depth int) (result interface{}, ea []error) {
 
+	if IsNil(obj) {
+		// A typed nil (a nil pointer in a typed slice for example) is a null
+		// value, not something to hand back to the caller as is.
+		return nil, nil
+	}
 	if depth <= 0 || IsNil(obj) {
 		// If not intended then generate an error later when trying to
 		// generate output.
